@@ -226,6 +226,11 @@ func c07Callback(c *Ctx, ev *Evaluator, af *Event, ptr, child, listener *T, name
 				if !(evt.Op == "struct" && len(evt.Args) == 3 && isGlobal(evt.Args[2], "ErrExceeded")) {
 					bad("the timeout event must carry ErrExceeded")
 				}
+				// the cancellation is what releases a cooperating function and lets the execution return: the listener
+				// must have been called by then, or the caller sees ErrExceeded with no timeout reported yet
+				if ls[0].Idx > cancels[0].Idx {
+					bad("the timeout listener must be called before the execution is cancelled: the cancellation lets the execution return, and by then the timeout must have been reported")
+				}
 			}
 		case triF:
 			if len(cancels) != 0 || len(ls) != 0 {
